@@ -6,6 +6,9 @@
 #![allow(clippy::all, dead_code)]
 
 use super::*;
+// explicit imports: do not rely on what the parent module happens to import
+#[allow(unused_imports)]
+use std::net::SocketAddr;
 
 impl NormalizedAddress {
     /// Makes the NEXT `lookup_host()` on this address answer exactly `answer` (in this order, repetitions
